@@ -38,7 +38,7 @@ func genGroup(rng *rand.Rand) []grpStep {
 			kind := []string{"do", "per", "trig", "ptrig"}[rng.Intn(4)]
 			kinds[nk] = kind
 			iv := []int{10, 50, 200}[rng.Intn(3)]
-			jit := []int{0, iv / 5, iv / 2}[rng.Intn(3)]
+			jit := []int{0, iv / 5, iv / 2, -iv / 5}[rng.Intn(4)]
 			out = append(out, grpStep{A: "reg", K: nk, Kind: kind, Iv: iv, Jit: jit, Hold: rng.Intn(2) == 0})
 		case c < 45 && nk > 0:
 			k := 1 + rng.Intn(nk)
